@@ -63,7 +63,8 @@ def toV3SchemaTable : List (String × String) :=
    ("required", "required"), ("minProperties", "minProperties"), ("maxProperties", "maxProperties"), ("allOf", "<make>"),
    ("properties", "<make>"), ("additionalProperties", "additionalProperties")]
 
-/-- pinned: FromV3SchemaRef `&openapi2.Schema{…}` — no `discriminator` row (finding #21) -/
+/-- pinned: FromV3SchemaRef `&openapi2.Schema{…}` (the discriminator is copied by a statement after the
+    literal, in both directions: `toV3SchemaAssigned` / `fromV3SchemaAssigned` below) -/
 def fromV3SchemaTable : List (String × String) :=
   [("type", "type"), ("title", "title"), ("format", "format"), ("description", "description"),
    ("enum", "enum"), ("default", "default"), ("example", "example"), ("externalDocs", "externalDocs"),
@@ -187,11 +188,29 @@ def toV3Hd {V : Type} (h : Hd V) : Hd V :=
   { ty := (fileToBinary h.ty h.fmt).1, fmt := (fileToBinary h.ty h.fmt).2,
     nullable := h.xnull, xnull := false, disc := h.disc, req := h.req, sc := conv toV3SchemaTable h.sc }
 
-/-- FromV3SchemaRef, scalar part (non-binary branch): field copies by the table — `Discriminator` is not
-    copied; `PermitsNull` ↦ `x-nullable: true` -/
+/-- FromV3SchemaRef, scalar part (non-binary branch): field copies by the table; the discriminator object's
+    `propertyName` ↦ the v2 string (e0e4b64); `PermitsNull` ↦ `x-nullable: true` -/
 def fromV3Hd {V : Type} (h : Hd V) : Hd V :=
-  { ty := h.ty, fmt := h.fmt, nullable := false, xnull := h.nullable || h.xnull, disc := none,
+  { ty := h.ty, fmt := h.fmt, nullable := false, xnull := h.nullable || h.xnull, disc := h.disc,
     req := h.req, sc := conv fromV3SchemaTable h.sc }
+
+/-- pinned: the typed fields ToV3SchemaRef / FromV3SchemaRef set by statements after the composite literal
+    (JSON keys of the destination fields, in source order) -/
+def toV3SchemaAssigned : List String := ["discriminator", "items", "format", "type", "properties", "allOf", "nullable"]
+def fromV3SchemaAssigned : List String := ["discriminator", "items", "properties", "allOf"]
+
+mutual
+/-- convertRefsInV2SchemaRef (dfc5235): the additionalProperties schema of a v3 schema on the way back — its own
+    `$ref` is rewritten to the v2 form and the conversion stops there (the resolved value of a reference is
+    not entered); otherwise the chain of nested additionalProperties is followed. Nothing else is touched
+    (`nullable` stays, items / properties / allOf are copied as they are). -/
+def addlFromV3 {V : Type} : Sch V → Sch V
+  | .ref k n => .ref (fromV3RK k) n
+  | .node h kids => .node h (addlBackKids kids)
+def addlBackKids {V : Type} : List (Slot × Sch V) → List (Slot × Sch V)
+  | [] => []
+  | (sl, c) :: rest => (sl, if sl = Slot.addl then addlFromV3 c else c) :: addlBackKids rest
+end
 
 mutual
 /-- convertRefsInV3SchemaRef: the additionalProperties schema of a v2 schema is parsed as an
@@ -215,13 +234,14 @@ def toV3Kids {V : Type} : List (Slot × Sch V) → List (Slot × Sch V)
 end
 
 mutual
-/-- FromV3SchemaRef (schemas that are not string/binary): `AdditionalProperties` is copied as it is -/
+/-- FromV3SchemaRef (schemas that are not string/binary): `AdditionalProperties` goes through
+    fromV3AdditionalProperties -/
 def fromV3S {V : Type} : Sch V → Sch V
   | .ref k n => .ref (fromV3RK k) n
   | .node h kids => .node (fromV3Hd h) (fromV3Kids kids)
 def fromV3Kids {V : Type} : List (Slot × Sch V) → List (Slot × Sch V)
   | [] => []
-  | (sl, c) :: rest => (sl, if sl = Slot.addl then c else fromV3S c) :: fromV3Kids rest
+  | (sl, c) :: rest => (sl, if sl = Slot.addl then addlFromV3 c else fromV3S c) :: fromV3Kids rest
 end
 
 /-- FromV3SchemaRef returns no schema (but a form-data *parameter*) for a string/binary schema and for a
@@ -241,7 +261,7 @@ def fromV3SO {V : Type} (bin : List String) : Sch V → Option (Sch V)
 def fromV3KidsO {V : Type} (bin : List String) : List (Slot × Sch V) → List (Slot × Sch V)
   | [] => []
   | (sl, c) :: rest =>
-    if sl = Slot.addl then (sl, c) :: fromV3KidsO bin rest
+    if sl = Slot.addl then (sl, addlFromV3 c) :: fromV3KidsO bin rest
     else consO sl (fromV3SO bin c) (fromV3KidsO bin rest)
 end
 
@@ -345,37 +365,6 @@ def addlImpure {V : Type} : Sch V → Bool
 def addlImpureKids {V : Type} : List (Slot × Sch V) → Bool
   | [] => false
   | (sl, c) :: rest => (if sl = Slot.addl then !addlPure c else addlImpure c) || addlImpureKids rest
-end
-
-mutual
-/-- exclusion (finding #21a): a discriminator somewhere outside additionalProperties sub-schemas -/
-def hasDisc {V : Type} : Sch V → Bool
-  | .ref _ _ => false
-  | .node h kids => h.disc.isSome || hasDiscKids kids
-def hasDiscKids {V : Type} : List (Slot × Sch V) → Bool
-  | [] => false
-  | (sl, c) :: rest => (if sl = Slot.addl then false else hasDisc c) || hasDiscKids rest
-end
-
-mutual
-/-- a reference on the additionalProperties chain of this (additionalProperties) schema -/
-def chainRef {V : Type} : Sch V → Bool
-  | .ref _ _ => true
-  | .node _ kids => chainRefKids kids
-def chainRefKids {V : Type} : List (Slot × Sch V) → Bool
-  | [] => false
-  | (sl, c) :: rest => (if sl = Slot.addl then chainRef c else false) || chainRefKids rest
-end
-
-mutual
-/-- exclusion (finding #21b): an additionalProperties sub-schema with a reference on its chain — the way back
-    copies it unconverted -/
-def addlRef {V : Type} : Sch V → Bool
-  | .ref _ _ => false
-  | .node _ kids => addlRefKids kids
-def addlRefKids {V : Type} : List (Slot × Sch V) → Bool
-  | [] => false
-  | (sl, c) :: rest => (if sl = Slot.addl then chainRef c else addlRef c) || addlRefKids rest
 end
 
 mutual
@@ -1156,7 +1145,7 @@ def api3 {V : Type} (d : Doc3 V) : Api V :=
 def itemsOK3 {V : Type} (o : Option (Sch V)) : Bool := o.all (fun s => !addlImpure s && v2Refs s)
 
 /-- … and of `roundtripS_partial` -/
-def itemsOKBack {V : Type} (o : Option (Sch V)) : Bool := o.all (fun s => !hasDisc s && !addlRef s && v2Refs s)
+def itemsOKBack {V : Type} (o : Option (Sch V)) : Bool := o.all v2Refs
 
 /-- exclusion (findings #21c and F-C17-4): the way back loses `required` and `format` of an inline form field -/
 def formLossy {V : Type} (p : Param2 V) : Bool :=
@@ -1168,7 +1157,7 @@ def headerOKBack {V : Type} (h : String × Param2 V) : Bool := itemsOKBack h.2.i
 
 def schemaOK3 {V : Type} (o : Option (Sch V)) : Bool := o.all (fun s => !addlImpure s && v2Refs s)
 
-def schemaOKBack {V : Type} (o : Option (Sch V)) : Bool := o.all (fun s => !hasDisc s && !addlRef s && v2Refs s)
+def schemaOKBack {V : Type} (o : Option (Sch V)) : Bool := o.all v2Refs
 
 /-- exclusion (finding #26): the response has a schema and `produces` lacks application/json -/
 def respLossy {V : Type} (produces : List String) : RRef2 V → Bool
@@ -1273,7 +1262,7 @@ def opSimpleBack {V : Type} (o : Op2 V) : Bool :=
 def pathSimpleBack {V : Type} (p : Path2 V) : Bool := p.params.all paramSimpleBack && p.ops.all opSimpleBack
 
 def defSimpleBack {V : Type} (s : Sch V) : Bool :=
-  noBinary2 s && !hasDisc s && !addlRef s && v2Refs s && !addlImpure s &&
+  noBinary2 s && v2Refs s && !addlImpure s &&
   (match s with | .ref _ _ => true | .node h _ => h.fmt != some "binary")
 
 def docSimpleBack {V : Type} (d : Doc2 V) : Bool :=
